@@ -129,14 +129,14 @@ class IdentityTransform(BaseTransform):
         return copy_array(x, xp=self.xp)
 
     def forward(self, x):
-        return copy_array(x, xp=self.xp), self.xp.zeros(
-            len(x), device=get_device(x)
-        )
+        # Take the device from the converted array: the input may belong to
+        # another namespace (e.g. NumPy arrays from an external sampler)
+        y = copy_array(x, xp=self.xp)
+        return y, self.xp.zeros(len(y), device=get_device(y))
 
     def inverse(self, y):
-        return copy_array(y, xp=self.xp), self.xp.zeros(
-            len(y), device=get_device(y)
-        )
+        x = copy_array(y, xp=self.xp)
+        return x, self.xp.zeros(len(x), device=get_device(x))
 
 
 class CompositeTransform(BaseTransform):
